@@ -22,6 +22,10 @@ func (ls *LState) CheckInt(n int) int {
 	if intv, ok := v.(LNumber); ok {
 		return int(intv)
 	}
+	if _, ok := v.(LString); ok {
+		// a string that is a numeral is converted (luaL_checkinteger), any other is refused
+		return int(ls.CheckNumber(n))
+	}
 	ls.TypeError(n, LTNumber)
 	return 0
 }
@@ -30,6 +34,10 @@ func (ls *LState) CheckInt64(n int) int64 {
 	v := ls.Get(n)
 	if intv, ok := v.(LNumber); ok {
 		return int64(intv)
+	}
+	if _, ok := v.(LString); ok {
+		// a string that is a numeral is converted (luaL_checkinteger), any other is refused
+		return int64(ls.CheckNumber(n))
 	}
 	ls.TypeError(n, LTNumber)
 	return 0
@@ -149,6 +157,10 @@ func (ls *LState) OptInt(n int, d int) int {
 	if intv, ok := v.(LNumber); ok {
 		return int(intv)
 	}
+	if _, ok := v.(LString); ok {
+		// a string that is a numeral is converted (luaL_checkinteger), any other is refused
+		return int(ls.CheckNumber(n))
+	}
 	ls.TypeError(n, LTNumber)
 	return 0
 }
@@ -161,6 +173,10 @@ func (ls *LState) OptInt64(n int, d int64) int64 {
 	if intv, ok := v.(LNumber); ok {
 		return int64(intv)
 	}
+	if _, ok := v.(LString); ok {
+		// a string that is a numeral is converted (luaL_checkinteger), any other is refused
+		return int64(ls.CheckNumber(n))
+	}
 	ls.TypeError(n, LTNumber)
 	return 0
 }
@@ -172,6 +188,10 @@ func (ls *LState) OptNumber(n int, d LNumber) LNumber {
 	}
 	if lv, ok := v.(LNumber); ok {
 		return lv
+	}
+	if _, ok := v.(LString); ok {
+		// a string that is a numeral is converted (luaL_checknumber), any other is refused
+		return ls.CheckNumber(n)
 	}
 	ls.TypeError(n, LTNumber)
 	return 0
